@@ -126,3 +126,7 @@ package sub
 // ---- round 5 ----
 //@ func (*context).unsubscribe
 //@   ensures c.recvQ != old(c.recvQ) ==> closed(old(c.sizeQ)) && c.sizeQ != old(c.sizeQ)
+
+// ---- round 6: a stored subscription never shares memory with the caller's buffer ----
+//@ func (*context).subscribe
+//@   ensures len(c.subs) == len(old(c.subs)) + 1 ==> arrof(c.subs[len(c.subs)-1]) != arrof(old(topic)) && fresh_arr(c.subs[len(c.subs)-1])
